@@ -4,6 +4,7 @@ import (
 	"fmt"
 	"math"
 	"os"
+	"runtime/debug"
 	"sort"
 	"time"
 
@@ -51,6 +52,9 @@ func (s *Sess) guard(e Ev, f func()) {
 			s.Panics++
 			e["panic"] = fmt.Sprint(r)
 			e["err"] = true
+			if os.Getenv("VERIF_STACK") != "" {
+				fmt.Fprintf(os.Stderr, "panic in %v: %v\n%s\n", e["op"], r, debug.Stack())
+			}
 		}
 		e["t1"] = s.now()
 		s.R.Emit(e)
